@@ -16,7 +16,8 @@ search:  harness/quadrature.py — push-forward quadrature of the real jump()/bi
          settings a jump uses (Chain.reset_proposals once / twice / after re-adaptation, set_state
          from another instance, the public setters, set_jump_interval, deepcopy / pickle), and the
          metamorphic form: same current settings reached by two histories => same logpdf / pdf,
-         same jump from the same scripted draws
+         same jump from the same scripted draws; interleaved queries (same point pairs before and
+         after every state-changing step of one live object)
 """
 import json
 import os
@@ -108,7 +109,10 @@ def run(chk, tier, proof_ok):
                         'push-forward comparison on real objects after reset_proposals (once, twice, after re-adaptation, '
                         'plus one step), set_state from another instance (into a fresh and into an adapted one), '
                         'assignment to std / cov / boundaries / kappa / successive / eigvals+eigvects, set_jump_interval '
-                        '(walk through the whole schedule: jump() draws <=> logpdf != 0), deepcopy and pickle; two '
+                        '(walk through the whole schedule: jump() draws <=> logpdf != 0), deepcopy and pickle; interleaved '
+                        'queries (one live object on a real chain answers the same point pairs before and after every '
+                        'adaptation step / reset / setter / set_state, each answer against a never-queried object with '
+                        'the same current settings); two '
                         'objects with the same settings by construction but different histories report logpdf / pdf '
                         'equal to 1e-12 and jump alike from the same scripted draws (every mismatch there is a failing '
                         'input, also for families declaring symmetric)' % (3 if tier == 'quick' else 3))
@@ -117,7 +121,8 @@ def run(chk, tier, proof_ok):
     chk.coverage['evaluations'] = int(cov['queries'] + cov['jumps'] + agg.get('cells', 0)
                                       + agg.get('history_queries', 0) + agg.get('symmetric_pairs', 0)
                                       + agg.get('reverse_checks', 0) + agg.get('twin_queries', 0)
-                                      + agg.get('twin_jumps', 0) + agg.get('jump_interval_states', 0))
+                                      + agg.get('twin_jumps', 0) + agg.get('jump_interval_states', 0)
+                                      + agg.get('interleaved_queries', 0))
     chk.coverage['distinct_nontrivial'] = int(cov['instances'] + agg.get('units', 0))
     chk.coverage['rule'] = ('one per real proposal/birth instance with its own settings (family, 1-3 parameters, '
                             'unequal scales/bounds, adapted state) that was queried at >= 2 distinct point pairs '
